@@ -24,6 +24,7 @@ class State:
     exact = False  # current case guarantees exactly representable scores (ASSD 'exact' family)
     stack: list = []  # labelmaps captured by the inner matcher monitor
     last_match = None
+    backend_override = None  # (backend name or None,) set by a driver that knows what it configured
     installed = False
 
 
@@ -292,10 +293,13 @@ def _wrap_approx(base):
         if (in_pred < 0).any() or (in_ref < 0).any():
             S.ctx.count("C05.skipped_negative")
             return out
-        be = getattr(self, "cca_backend", "missing")
-        if be == "missing":
-            raise SystemExit("INCONCLUSIVE reason=approximator has no cca_backend attribute")
-        be = None if be is None else be.name
+        if S.backend_override is not None:
+            be = S.backend_override[0]  # the backend the driver configured (the object's attribute may be stale)
+        else:
+            be = getattr(self, "cca_backend", "missing")
+            if be == "missing":
+                raise SystemExit("INCONCLUSIVE reason=approximator has no cca_backend attribute")
+            be = None if be is None else be.name
         check_approx(be, in_pred, out.prediction_arr, out.n_prediction_instance, "prediction")
         check_approx(be, in_ref, out.reference_arr, out.n_reference_instance, "reference")
         return out
